@@ -138,7 +138,7 @@ type exprParser struct {
 }
 
 func (p *exprParser) peek() ctoken { return p.toks[p.pos] }
-func (p *exprParser) next() ctoken  { t := p.toks[p.pos]; p.pos++; return t }
+func (p *exprParser) next() ctoken { t := p.toks[p.pos]; p.pos++; return t }
 func (p *exprParser) accept(op string) bool {
 	if p.peek().kind == "op" && p.peek().text == op {
 		p.pos++
